@@ -35,6 +35,11 @@ func init() {
 				logs = append(logs, w.Log)
 				fmt.Printf("run %d: %d points, %d log lines, diverged=%q deadlock=%v\n", i, len(w.Points), len(w.Log), w.Diverged, w.Deadlock)
 			}
+			if os.Getenv("VERIF_DEBUG_LOG") != "" {
+				for _, l := range logs[0] {
+					fmt.Println("   ", l)
+				}
+			}
 			for i := 0; i < len(logs[0]) || i < len(logs[1]) || i < len(logs[2]); i++ {
 				get := func(l []string) string {
 					if i < len(l) {
